@@ -618,6 +618,22 @@ func rC13RetriesPerVertex(w *World, r *Report) {
 			}
 		}
 		ru.Check(good, "Retries/writer/"+short(u.Fn), w.IPos(u.Instr), "TaskRetries stores its parameter", "a vertex gets a retry count from somewhere other than TaskRetries on this graph (e.g. from the shared Task): a task can be entered more often than this graph allows")
+		if st != nil && short(u.Fn) == "(*dag.Graph).TaskRetries" {
+			// whatever count is given is stored: the only condition on the store is that the vertex was found
+			extra := ""
+			for _, fc := range factsAt(st.Block()) {
+				onCount := false
+				for _, side := range []ssa.Value{fc.X, fc.Y} {
+					if side != nil && derivedFrom(side, []ssa.Value{st.Val}, 0) {
+						onCount = true
+					}
+				}
+				if onCount && fc.If != nil {
+					extra = w.IPos(fc.If)
+				}
+			}
+			ru.Check(extra == "", "Retries/unconditional", w.IPos(st), "stored for every count", "TaskRetries stores the count only under a condition on it (at "+extra+"): some counts (0, negative) are silently ignored and an earlier, larger budget stays in force")
+		}
 	}
 	if n == 0 {
 		ru.Bad("Retries/writer", "-", "TaskRetries does not store the retry count")
